@@ -22,6 +22,8 @@ BOUNDS = {
               "instruction classes": "every class of ppci.arch.riscv.instructions / rvc_instructions with syntax + tokens"},
 }
 BOUNDS["thorough"] = dict(BOUNDS["quick"])
+BOUNDS["thorough"]["immediates"] = BOUNDS["quick"]["immediates"].replace("2**33", "2**48")
+BOUNDS["thorough"]["branch/jump distance"] = BOUNDS["quick"]["branch/jump distance"].replace("twice", "16 times")
 OUTSIDE = ["arm, thumb, x86_64, msp430, avr, m68k, mips, or1k, xtensa, microblaze (no reference decoder available here)",
            "F/D floating-point instruction classes (rvf/rvfx modules)",
            "pseudo-instructions without an encoding of their own (Li, La, Labelrel and the rvc selection helpers Andv, Lwv, ...)",
@@ -138,7 +140,7 @@ def jobs(tier, seed):
     js = [("mk_selftest", {}), ("mk_slicing", dict(ilen=4)), ("mk_slicing", dict(ilen=2))]
     claimed, unclaimed = _rv.discover()
     for (arch, idx, cls, mn, ks) in claimed:
-        js.append(("mk_enc", dict(arch=arch, idx=idx, cls=cls, mn=mn, ks=ks)))
+        js.append(("mk_enc", dict(arch=arch, idx=idx, cls=cls, mn=mn, ks=ks, wide=int(tier == "thorough"))))
     only = os.environ.get("VERIF_ONLY")
     if only:
         js = [j for j in js if only in repr(j)]
